@@ -49,15 +49,24 @@ EXPECTED_PROBES = ["empty_partition", "partition_only_inert_rows", "partition_co
                    "query_other_geometry_series"]
 
 QUERIES = ("cx", "cx", "cx_series", "cx_partitions", "bounds", "total_bounds", "area", "length",
-           "intersects_bounds", "sjoin", "other_total_bounds", "other_cx")
+           "intersects_bounds", "sjoin", "sjoin", "other_total_bounds", "other_cx")
 
 
 # ------------------------------------------------------------------ generation
 def gen_right(rng):
-    n = rng.randint(1, 4)
+    n = rng.randint(1, 4) if rng.random() < 0.6 else rng.randint(5, 9)
     kind = rng.choice(("polygon", "polygon", "multipolygon", "line", "multipoint"))
     vals = [gen.gen_element(rng, kind) for _ in range(n)]
-    return {"kind": kind, "values": vals, "rv": list(range(900, 900 + n)),
+    if rng.random() < 0.4:
+        # the whole right frame well inside the left frame's extent (quarter-unit grid, still
+        # exact): some left partitions then cover the extent of the right frame's index
+        def rec(v):
+            if isinstance(v, list) and v and isinstance(v[0], list):
+                return [rec(x) for x in v]
+            return [4.0 + c / 2.0 for c in v]
+        vals = [rec(v) for v in vals]
+    fit = rng.random() < 0.35
+    return {"kind": kind, "fit": fit, "values": vals, "rv": list(range(900, 900 + n)),
             "v": [rng.randint(0, 5) for _ in range(n)]}
 
 
@@ -276,8 +285,12 @@ def _sync(ddf, expected_records, probes, sig, what, with_index=True):
     return snaps
 
 
+_RUN = {}
+
+
 def _drive(case, root, fs, probes, sig):
     from spatialpandas.io import read_parquet_dask
+    _RUN.clear()
 
     spec = case["frame"]
     gdf = gen.build_frame(spec)
@@ -565,12 +578,40 @@ def _query(q, ddf, snaps, active, template, case, probes, sig, packed):
             return
         probes["query_sjoin"] = 1
         r = case["right"]
-        right = GeoDataFrame({"rg": gen.build_array(r["kind"], r["values"]), "rv": r["rv"],
-                              "v": r["v"]})
+
+        if "right_vals" not in _RUN:
+            vals = r["values"]
+            exts = [snap_extent(s_, active) for s_ in snaps if s_["n"]]
+            exts = [e_ for e_ in exts if not any(math.isnan(v) for v in e_)
+                    and e_[2] > e_[0] and e_[3] > e_[1]]
+            if r.get("fit") and exts:
+                # the right frame squeezed into the extent of one left partition (dyadic
+                # scaling, exact): that partition covers the whole extent of the right index
+                e_ = exts[case["seed"] % len(exts)]
+
+                def rec(v, e_=e_):
+                    if isinstance(v, list) and v and isinstance(v[0], list):
+                        return [rec(x) for x in v]
+                    return [e_[j % 2] + (c / 16.0) * (e_[2 + j % 2] - e_[j % 2])
+                            for j, c in enumerate(v)]
+                vals = [rec(v) for v in vals]
+                probes["right_frame_inside_one_partition_extent"] = 1
+            _RUN["right_vals"] = vals
+
+        def mk():
+            return GeoDataFrame({"rg": gen.build_array(r["kind"], _RUN["right_vals"]),
+                                 "rv": r["rv"], "v": r["v"]})
+        # the Dask joins of one run all use ONE right frame (whatever a join caches on it, or
+        # does to it, the next join meets); the pandas oracle gets a fresh one every time
+        if _RUN.get("right") is None:
+            _RUN["right"] = mk()
+        else:
+            probes["sjoin_right_frame_reused"] = 1
+        right = _RUN["right"]
         how = q["how"]
         sig["how"] = how
         got = _guard(f"sjoin[{how}]", lambda: sjoin(ddf, right, how=how).compute(), sig)
-        exp = _guard(f"pandas-sjoin[{how}]", lambda: sjoin(M, right, how=how), sig)
+        exp = _guard(f"pandas-sjoin[{how}]", lambda: sjoin(M, mk(), how=how), sig)
         g, e = Counter(e2.recs(got)), Counter(e2.recs(exp))
         if sorted(got.columns) != sorted(exp.columns):
             raise Bad("columns@sjoin", f"sjoin columns {list(got.columns)} vs {list(exp.columns)}")
